@@ -837,6 +837,17 @@ func runC36(c *fw.Ctx) {
 			}
 		}
 	}
+	// quick tier: the 3-commit DAGs join for one narrow slice only — a client
+	// that is already shallow (depth 1 on every tip) deepens by 2 or 3, so that
+	// several boundary commits are un-shallowed by one response.
+	deepOnly := map[int]bool{}
+	if !c.Thorough() && only == "" && os.Getenv("C36_MIN3") == "" {
+		for _, d := range fw.DAGs(3, 2, false) {
+			deepOnly[len(bds)] = true
+			bds = append(bds, bd{d, 0})
+		}
+	}
+	c.Bound("quick_deepen_slice", "3-commit DAGs x prior shallow(depth 1 of all) x default refspec x depth {2,3}")
 	bases := make([]*i36Base, len(bds))
 	for i := range bds {
 		bases[i] = &i36Base{idx: i, dag: bds[i].d, ts: bds[i].ts, name: i36DagName(bds[i].d, bds[i].ts)}
@@ -872,6 +883,10 @@ func runC36(c *fw.Ctx) {
 		if n >= 3 {
 			// shallow at depth 2: the client has non-shallow commits above its boundary
 			priors = append(priors, i36Prior{"shallow2", full})
+		}
+		if deepOnly[b.idx] {
+			units = append(units, unit{b: b, prior: i36Prior{"shallow", full}, spec: 0})
+			continue
 		}
 		for _, p := range priors {
 			for s := range i36Specs {
@@ -943,7 +958,11 @@ func runC36(c *fw.Ctx) {
 			r.cloneUnit(ui, u.b, newSrv, depths, protosGit, n <= maxCommitsX)
 			return
 		}
-		r.fetchUnit(ui, u.b, newSrv, u.prior, u.spec, depths, protosGo, protosGit, n <= maxCommitsX, func(mask int, x bool) *i36Srv { return getSrv(u.b, mask, x) })
+		ud := depths
+		if deepOnly[u.b.idx] {
+			ud = []int{2, 3}
+		}
+		r.fetchUnit(ui, u.b, newSrv, u.prior, u.spec, ud, protosGo, protosGit, n <= maxCommitsX, func(mask int, x bool) *i36Srv { return getSrv(u.b, mask, x) })
 	})
 
 	// report
